@@ -8,6 +8,9 @@ the default state and meets nothing but text and ESC[...m.
 L2 (K <= 3 runs): str(f) is interpreted as a whole: run i's text drawn in run i's state, in
 order, default state at the end.  L1 + L2 give every K (each run starts from the state the
 previous one restored).
+CH (1..3 runs of concrete characters whose CLASS - narrow, newline, tab, double-width, combining, NUL -
+is a symbolic selector per character): the same oracle on native strings, so that runs made only of
+zero-width or control characters are covered by the solver's enumeration of classes.
 Domain: SegStr - the text is one symbolic source of symbolic length n >= 0; the escape
 codes arrive as literal segments produced by the real code.
 """
@@ -58,6 +61,15 @@ def instances(tier, seed):
                             "params": {"fgs": [fg], "bgs": [bg], "styles": "all", "s0": None}})
             out.append({"name": "L1-reformat-fg%d" % fg, "fn": "lemma1", "timeout": T,
                         "params": {"fgs": [fg], "bgs": list(range(9)), "styles": "none+allsix", "s0": None, "via": "reformat"}})
+    # concrete character classes (narrow, newline, tab, double-width, combining, NUL): the class of every character is a
+    # symbolic selector, so runs made only of zero-width or control characters, and every mix, are covered
+    lens_list = [(1,), (2,), (1, 1), (0, 1), (2, 1), (1, 2), (1, 0, 1), (1, 1, 1)]
+    if tier != "quick":
+        lens_list += [(3,), (2, 2), (1, 1, 2), (2, 1, 1), (0, 2, 1)]
+    for lt in lens_list:
+        for grp in range(2 if tier == "quick" else 6):
+            out.append({"name": "CH-%s-g%d" % ("".join(map(str, lt)), grp), "fn": "lemma_chars", "timeout": T, "cost": 6 ** sum(lt) / 10,
+                        "params": {"lens": list(lt), "grp": grp, "chars": True, "npat": 3 if (tier == "quick" and sum(lt) >= 3) else 9}})
     for K in (0, 1, 2, 3):
         firsts = [None] if (K < 2) else list(range(len(REDUCED)))
         if tier == "quick" and K == 3:
@@ -76,8 +88,10 @@ PATS = []      # the instance's concrete pattern list, computed once outside the
 
 
 def setup(params):
+    from chx.domains import widths
     install_space_mul()
-    PATS[:] = _l1_patterns() if "fgs" in params else _l2_patterns()
+    widths.install_ext()      # a change that makes rendering depend on display width must not crash on the text domains
+    PATS[:] = _l1_patterns() if "fgs" in params else (_ch_patterns(params) if params.get("chars") else _l2_patterns())
 
 
 def selftest(rnd):
@@ -88,7 +102,8 @@ def selftest(rnd):
     assert sgr_interpret("\x1b[1;44mx\x1b[m")[0] == [("x", {"bold": True, "bg": 44})]
     assert sgr_interpret("\x1b[2Ax") is None and sgr_interpret("\x1bAx") is None and sgr_interpret("\x9b1mx") is None
     assert sgr_interpret("\x1b[38m") is None
-    return n + 5
+    from chx.domains import widths
+    return n + 5 + widths.selftest_ext()
 
 
 def _styles_ok(mode, s0p, s):
@@ -273,6 +288,50 @@ def lemma2(n0: int, n1: int, n2: int, sel: int) -> bool:
     return verdict(sbool(ok), sbool(nontrivial))
 
 
+CH = ["a", "\n", "\t", "\u754c", "\u0301", "\x00"]
+
+
+def _ch_patterns(params):
+    """attribute tuples (indices into REDUCED) for the instance: a fixed spread, different per group"""
+    import itertools
+    K = len(params["lens"])
+    allt = list(itertools.product(range(len(REDUCED)), repeat=K))
+    g = params["grp"]
+    n = params.get("npat", 9)
+    step = max(1, len(allt) // n)
+    return [allt[(g * 5 + j * step + j) % len(allt)] for j in range(n)]
+
+
+def _ch_texts(ks, lens):
+    ts = []
+    pos = 0
+    for ln in lens:
+        ts.append("".join(CH[ks[pos + j]] for j in range(ln)))
+        pos += ln
+    return ts
+
+
+def lemma_chars(k0: int, k1: int, k2: int, k3: int, sel: int) -> bool:
+    """
+    pre: all((0 <= k < len(CH)) if i < sum(P["lens"]) else k == 0 for i, k in enumerate([k0, k1, k2, k3]))
+    pre: 0 <= sel < len(PATS)
+    post: _
+    """
+    from curtsies.formatstring import FmtStr, Chunk
+    from crosshair.core import realize
+    ks = [int(realize(k)) for k in (k0, k1, k2, k3)]
+    ai = PATS[int(realize(sel))]
+    ts = _ch_texts(ks, P["lens"])
+    attl = [REDUCED[i] for i in ai]
+    f = FmtStr(*[Chunk(t, a) for t, a in zip(ts, attl)])
+    out = str(f)
+    with NoTracing():
+        want = [(c, disp(a)) for t, a in zip(ts, attl) for c in t]
+        r = sgr_interpret(out) if type(out) is str else None
+        ok = r is not None and r[0] == want and r[1] == {}
+    return verdict(ok, len(set(ks[:sum(P["lens"])])) >= 2)
+
+
 # ---------------------------------------------------------------- concrete twin (plain CPython)
 EXOTIC = ["a", "\n", "\t", "界", "́", "Z", " ", "\x00", "\r", "~"]
 
@@ -309,6 +368,17 @@ def concrete(fn, params, args):
     from chx.common import cells, fmt_cells
     P.clear()
     P.update(params)
+    if fn == "lemma_chars":
+        ts = _ch_texts(list(args[:4]), params["lens"])
+        attl = [REDUCED[i] for i in _ch_patterns(params)[args[4]]]
+        f = FmtStr(*[Chunk(t, a) for t, a in zip(ts, attl)])
+        want = [(c, disp(a)) for t, a in zip(ts, attl) for c in t]
+        s = str(f)
+        r = sgr_interpret(s)
+        if r is None:
+            return {"ok": False, "observed": repr(s), "expected": "only text and supported SGR sequences", "call": "str(%r)" % f}
+        return {"ok": r[0] == want and r[1] == {}, "observed": fmt_cells(r[0]) + " | final state %r | %r" % (r[1], s),
+                "expected": fmt_cells(want) + " | final state {}", "call": "str(%r)" % f}
     if fn == "lemma1":
         n = args[0]
         fg, bg, sty = _l1_patterns()[args[1]]
